@@ -8,7 +8,7 @@ emphasis examples on every run) at both levels:
   E-stack : process_emphasis on an ABSTRACT stack of k runs (symbolic kinds, lengths, flags)
   E-str   : find_core_tokens on every string over {a, space, *, _, .} up to N characters
 """
-from vfy.lemma import lemma, rxlemma, P
+from vfy.lemma import lemma, rxlemma, P, Duck, Duck
 from vfy.lemmas.common import S, all_in, by, fixed, cp_md, cp_ok
 from vfy.ref import emphasis as E
 from mistletoe import core_tokens as ct
@@ -145,7 +145,7 @@ def e_flank(p: int, q: int, has_p: bool, has_q: bool) -> bool:
 
 # --------------------------------------------------------------------------------- E-stack (E1)
 
-class RunStr:
+class RunStr(Duck):
     """homogeneous string ch*n with (possibly symbolic) n: exact str semantics for what
     Delimiter / process_emphasis do with `.type` (index 0, slicing, startswith)"""
     def __init__(self, ch, n):
@@ -185,7 +185,7 @@ class RunStr:
         return 0
 
 
-class AnyStr:
+class AnyStr(Duck):
     def __getitem__(self, i):
         return 'x'
 
@@ -217,6 +217,17 @@ def _runs(k, kinds, ns, os_, ls):
     return [('*' if kinds[i] else '_', ns[i], os_[i], ls[i]) for i in range(k)]
 
 
+def all_live(k, os_, ls):
+    """with job parameter live=True every run can open or close: a run that can do neither never takes part,
+    so stacks containing one are covered by the jobs with fewer runs"""
+    if not P('live', False):
+        return True
+    for i in range(k):
+        if not (os_[i] or ls[i]):
+            return False
+    return True
+
+
 def _stack_parts(k):
     """partition by the kind vector (2^k cells)"""
     out = []
@@ -225,22 +236,24 @@ def _stack_parts(k):
     return out
 
 
-@lemma('E-stack', 'C06', quick=_stack_parts(2) + [dict(p, M=4) for p in _stack_parts(3)],
-       thorough=_stack_parts(2) + [dict(p, M=7, timeout=5000) for p in _stack_parts(3)] + [dict(p, M=4, timeout=5000) for p in _stack_parts(4)],
+@lemma('E-stack', 'C06', quick=_stack_parts(2) + [dict(p, M=4) for p in _stack_parts(3)] + [dict(p, M=1, live=True) for p in _stack_parts(5)],
+       thorough=_stack_parts(2) + [dict(p, M=7, timeout=5000) for p in _stack_parts(3)] + [dict(p, M=4, timeout=5000) for p in _stack_parts(4)]
+       + [dict(p, M=2, live=True, timeout=5000) for p in _stack_parts(5)] + [dict(p, M=1, live=True, timeout=5000) for p in _stack_parts(6)],
        timeout=900, per_path=60,
        stubs=['Delimiter objects built directly (RunStr for .type, positions 100*i)', 'source string -> AnyStr (never influences control flow)'],
        covers=['core_tokens.py:process_emphasis', 'core_tokens.py:matching_opener', 'core_tokens.py:next_closer',
                'core_tokens.py:Delimiter.remove', 'core_tokens.py:Delimiter.closed_by'],
-       note='k runs, each (kind, length in 1..M, can-open, can-close) symbolic; matches equal the reference algorithm; no exception')
-def e_stack(n1: int, n2: int, n3: int, n4: int, o1: bool, o2: bool, o3: bool, o4: bool,
-            l1: bool, l2: bool, l3: bool, l4: bool) -> bool:
+       note='k runs, each (kind, length in 1..M, can-open, can-close) symbolic (for k >= 5: runs that can neither open nor close are left to the smaller k); matches equal the reference algorithm; no exception')
+def e_stack(n1: int, n2: int, n3: int, n4: int, n5: int, n6: int, o1: bool, o2: bool, o3: bool, o4: bool, o5: bool, o6: bool,
+            l1: bool, l2: bool, l3: bool, l4: bool, l5: bool, l6: bool) -> bool:
     """
-    pre: 1 <= n1 <= P('M', 9) and 1 <= n2 <= P('M', 9) and 1 <= n3 <= P('M', 9) and 1 <= n4 <= P('M', 9)
+    pre: 1 <= n1 <= P('M', 9) and 1 <= n2 <= P('M', 9) and 1 <= n3 <= P('M', 9) and 1 <= n4 <= P('M', 9) and 1 <= n5 <= P('M', 9) and 1 <= n6 <= P('M', 9)
+    pre: all_live(P('k'), [o1, o2, o3, o4, o5, o6], [l1, l2, l3, l4, l5, l6])
     post: _
     """
     k = P('k')
     kinds = P('kinds')
-    runs = _runs(k, kinds, [n1, n2, n3, n4], [o1, o2, o3, o4], [l1, l2, l3, l4])
+    runs = _runs(k, kinds, [n1, n2, n3, n4, n5, n6], [o1, o2, o3, o4, o5, o6], [l1, l2, l3, l4, l5, l6])
     got, want = _abstract(runs)
     return got == want
 
@@ -257,10 +270,10 @@ def concretise_stack(runs):
     return ''.join(parts)
 
 
-def replay_stack(n1, n2, n3, n4, o1, o2, o3, o4, l1, l2, l3, l4):
+def replay_stack(n1, n2, n3, n4, n5, n6, o1, o2, o3, o4, o5, o6, l1, l2, l3, l4, l5, l6):
     k = P('k')
     kinds = P('kinds')
-    runs = _runs(k, kinds, [n1, n2, n3, n4], [o1, o2, o3, o4], [l1, l2, l3, l4])
+    runs = _runs(k, kinds, [n1, n2, n3, n4, n5, n6], [o1, o2, o3, o4, o5, o6], [l1, l2, l3, l4, l5, l6])
     text = concretise_stack(runs)
     rs = E.runs(text)
     if [(r[0], r[2] - r[1], r[3], r[4]) for r in rs] != runs:
